@@ -4,6 +4,7 @@ R1  gradient mutation => divergence refresh: every mutation of the gradient grid
     followed (in the same function or in every caller) by update_div_neighbors()/set_div() under b_integrate
 R4  1D periodic closure: the subtracted mean ranges over the same bins as the cumulative sum
 R2  dimension-suffix / index agreement in the Laplacian and divergence stencils of integrate_potential
+R5  a grid's geometry is its own: grid code reads a variable's width / boundaries only where it also handles its own copies
 """
 import re
 
@@ -326,7 +327,44 @@ def r4(F, rep):
         detail="a divisor counted inside the loop is the number of bins that contributed, not the number of bins the cumulative sum runs over", func=a.q)
 
 
+def r5(F, rep, rid="C16-R5"):
+    rep.rule(rid, "a grid's geometry is its own: a member function of a grid class reads a variable's `width`, `lower_boundary` "
+                  "or `upper_boundary` only where it also touches the grid's own copy of that quantity (the functions that fill "
+                  "the copies from the variables, or compare them) -- a grid configured with its own boundaries or width "
+                  "(`grid { ... }`) is integrated and labelled with them, not with the variable's")
+    own = {"width": "widths", "lower_boundary": "lower_boundaries", "upper_boundary": "upper_boundaries"}
+    n = 0
+    seen = set()
+    for f in sorted(F.funcs.values(), key=lambda g: (g.q, g.m)):
+        if "/src/" not in f.file or f.body is None or not f.cls or not f.cls.startswith(("colvar_grid", "integrate_potential")):
+            continue
+        reads = {}
+        mine = set()
+        for x in f.walk():
+            if x["k"] != "MemberExpr" or x.get("dk") != "Field":
+                continue
+            q = x.get("q") or ""
+            if q.startswith("colvar::") and q.split("::")[-1] in own:
+                reads.setdefault(q.split("::")[-1], x)
+            if q.split("::")[-1] in own.values() and ("colvar_grid" in q):
+                mine.add(q.split("::")[-1])
+        for nm, x in sorted(reads.items()):
+            key = "%s|%s" % (X.re_strip(f.q) if hasattr(X, "re_strip") else f.q, nm)
+            if key in seen:
+                continue
+            seen.add(key)
+            n += 1
+            ok = own[nm] in mine
+            rep.add(rid, key, f.loc(x), "%s reads the variable's `%s` %s" % (f.q, nm, ("next to the grid's own `%s`" % own[nm]) if ok else
+                                                                              ("and never the grid's own `%s`" % own[nm])), ok,
+                    detail="with a `grid { ... }` block of its own the grid's width and boundaries differ from the variable's: the integral is "
+                           "scaled by the wrong bin width and written against the wrong abscissa", func=f.q)
+    if n < 3:
+        raise AnalysisBroken("%s: only %d reads of a variable's geometry inside grid classes (the grid initialiser and the consistency check expected)" % (rid, n))
+
+
 def run(F, rep, tier):
+    r5(F, rep)
     r4(F, rep)
     r1(F, rep)
     r2(F, rep)
